@@ -1159,6 +1159,9 @@ class ExcelCompiler:
                     self.cell_map[precedent_address.address], dependant)
 
         if failure is not None:
+            # the ranges queued by this build are calculated when they are
+            # read, they are not to fail the next build in its place
+            self.range_todos = []
             raise failure
 
         # calc the values for ranges, evaluating can come back here to build
